@@ -348,7 +348,7 @@ func codeFenceLength(source []byte, block *commonmark.Block) int {
 							state = 0
 						}
 					}
-				case '\n':
+				case '\n', '\r':
 					if state > minFence {
 						minFence = state
 					}
